@@ -1138,7 +1138,19 @@ impl VNet {
                 return MessageType::Response(ResponseSpecific::GetMutable(GetMutableResponseArguments { responder_id: me, token, nodes: Some(nodes(self, &t)), v: item.value().to_vec().into_boxed_slice(), k: *item.key(), seq: item.seq(), sig: *item.signature() }));
             }
         }
-        if forge != 0 {
+        if forge == 10 || forge == 11 {
+            // a node that answers every lookup request with a KRPC error, or with a bare ping-shaped
+            // response (no nodes, no token): the lookup takes note of the answer and goes on
+            let is_lookup = matches!(req.request_type, RequestTypeSpecific::FindNode(_) | RequestTypeSpecific::GetPeers(_) | RequestTypeSpecific::GetSignedPeers(_) | RequestTypeSpecific::GetValue(_));
+            if is_lookup {
+                return if forge == 10 {
+                    MessageType::Error(ErrorSpecific { code: 202, description: "Server Error".into() })
+                } else {
+                    MessageType::Response(ResponseSpecific::Ping(PingResponseArguments { responder_id: me }))
+                };
+            }
+        }
+        if forge != 0 && forge < 10 {
             match &req.request_type {
                 RequestTypeSpecific::GetValue(a) => {
                     let n = Some(nodes(self, &a.target));
@@ -1214,6 +1226,14 @@ impl VNet {
                 let code = self.peers[i].put_reply;
                 if p.token.as_ref() != token.as_ref() {
                     return MessageType::Error(ErrorSpecific { code: 203, description: "Bad token".into() });
+                }
+                if code == -1 || code == -2 {
+                    // neither an acknowledgement nor an error: a response of another shape to a put request
+                    return if code == -1 {
+                        MessageType::Response(ResponseSpecific::FindNode(FindNodeResponseArguments { responder_id: me, nodes: nodes(self, &me) }))
+                    } else {
+                        MessageType::Response(ResponseSpecific::NoValues(NoValuesResponseArguments { responder_id: me, token: token.clone(), nodes: None }))
+                    };
                 }
                 if code != 0 {
                     // free text of every length and shape: short, multi-byte characters straddling the
@@ -1645,8 +1665,8 @@ pub fn chaos_round(out: &mut Out, rng: &mut Rng, t0: u64, round: usize) {
         }
         if i > 0 || rng.chance(1, 3) {
             p.mode = *rng.pick(&[0u8, 0, 0, 0, 1, 2, 3]);
-            p.put_reply = *rng.pick(&[0i32, 0, 0, 0, 203, 205, 301, 302]);
-            p.forge = *rng.pick(&[0u8, 0, 0, 0, 0, 1, 2, 3, 5, 7, 8]);
+            p.put_reply = *rng.pick(&[0i32, 0, 0, 0, 0, 203, 205, 301, 302, -1, -2]);
+            p.forge = *rng.pick(&[0u8, 0, 0, 0, 0, 0, 1, 2, 3, 5, 7, 8, 10, 11]);
             p.extra_delay = *rng.pick(&[0u64, 0, 0, 20, 510, 700, 1300]) * MS;
             p.put_delay = *rng.pick(&[0u64, 0, 100, 600]) * MS;
             p.read_only = rng.chance(1, 12);
@@ -2681,6 +2701,46 @@ pub fn run(out: &mut Out, seed: u64, thorough: bool, replay: Option<&str>) {
         d.finish();
         d.out.mark_distinct(fnv(format!("K4{round}").as_bytes()));
         d.out.count("newest-at-the-end-of-the-chain");
+        d.s.shutdown();
+    }
+    // ---- O: answers of the wrong shape (C05, C06, C08): nodes that answer lookups with a KRPC error or a bare
+    //         ping response, and put requests with a find_node- or no-values-shaped response — neither an
+    //         acknowledgement nor an error.  Lookups go on without them; such puts count nothing
+    for round in 0..(if thorough { 6 } else { 3 }) {
+        t0 += 10_000_000_000_000;
+        let mut net = VNet::new(&mut rng, 7, true);
+        for (j, p) in net.peers.iter_mut().enumerate() {
+            match j {
+                1 | 2 => p.forge = 10,
+                3 => p.forge = 11,
+                4 => p.put_reply = -1,
+                5 => p.put_reply = -2,
+                _ => {}
+            }
+            if round % 3 == 2 && j != 0 {
+                // nobody acknowledges: every put ends with a query error, never hangs
+                p.put_reply = if j % 2 == 0 { -1 } else { -2 };
+            }
+        }
+        let boot = vec![net.peers[0].addr, net.peers[1].addr];
+        let mut d = Driver::new(out, rng.next(), net);
+        d.begin(if round % 2 == 0 { "c" } else { "s" }, &boot, None, rng.next() % 1_000_000 + 1, t0);
+        d.run_for(2 * SEC, 10 * MS);
+        let v = format!("answers of the wrong shape {round}").into_bytes();
+        d.api(format!("put_imm v={}", hex(&v)));
+        d.settle(20 * SEC, 10 * MS);
+        d.api(format!("get_imm t={}", hex(imm_target(&v).as_bytes())));
+        d.api(put_mut_call(9, 4, b"odd", None, None));
+        d.settle(20 * SEC, 10 * MS);
+        let ih = Id::from_bytes(rng.id20()).expect("id");
+        d.api(format!("announce ih={} port=7000", hex(ih.as_bytes())));
+        d.api(format!("get_peers ih={}", hex(ih.as_bytes())));
+        d.api(format!("find_node t={}", hex(ih.as_bytes())));
+        d.settle(20 * SEC, 10 * MS);
+        d.run("snap".into());
+        d.finish();
+        d.out.mark_distinct(fnv(format!("O{round}").as_bytes()));
+        d.out.count("answers-of-the-wrong-shape");
         d.s.shutdown();
     }
     // ---- F2: adaptive node confirmed at address A; then its peers report another address B that is
